@@ -2,6 +2,7 @@
 import json
 import os
 
+from .. import summ, boolform
 from ..astq import walk, walk_parents, field_path, unwrap_casts, const_value, direct_writes, direct_reads
 from ..guards import guards_at
 from ..norm import render, render_stmt, Renderer, short_fn
@@ -73,23 +74,20 @@ def run(ctx):
     F = ctx.F['functions']
     # ---- A1
     f = ctx.fn(I + 'RnAndModify(unsigned int,StepValue,bool)')
-    r = Renderer(f, inline_locals=False)
     ctx.inst(A1)
-    stmts = f['body'].get('body', [])
-    first = r.s(stmts[0]) if stmts else ''
-    rets = [r.r(n['e']) for n in walk(f['body']) if n.get('k') == 'return']
-    var = first.split(' ')[1] if first.startswith('(var ') else None
-    ok = var is not None and first == '(var %s ([] %sr) $0))' % (var, REGS) and rets and all(x == 'l:' + var for x in rets)
-    assigns = [n for n in walk(f['body']) if n.get('k') == 'assign' and r.r(n['lhs']) == 'l:%s' % var]
-    if not ok or assigns:
-        ctx.report(A1, f, f['body'], 'RnAndModify', 'the returned address is not the register value loaded before modification: first %s returns %s' % (first, rets))
-    ws = [n for p, n, how in direct_writes(f['body']) if p[1] == 'r']
-    for n in ws:
-        if r.r(unwrap_casts(n['lhs'])) != '([] %sr) $0)' % REGS:
-            ctx.report(A1, f, n, 'RnAndModify store', 'post-modification stores to a register other than regs.r[unit]')
-    steps = [n for n in walk(f['body']) if n.get('k') == 'call' and n.get('name') == 'StepAddress']
-    if len(steps) != 1 or [r.r(a) for a in steps[0]['args']] != ['$0', '([] %sr) $0)' % REGS, '$1', '$2']:
-        ctx.report(A1, f, f['body'], 'RnAndModify step', 'the new value is not StepAddress(unit, regs.r[unit], step, dmod)')
+    SM = summ.summary(ctx, f)
+    RU = '([] %sr) $0)' % REGS
+    STEP = '(call Teakra::Interpreter::StepAddress on this $0 %s $1 $2)' % RU
+    rets = SM.returns()
+    if set(rets) != {RU}:
+        ctx.report(A1, f, f['body'], 'RnAndModify', 'the returned address is not the register value loaded before modification: returns %s' % sorted(rets))
+    wr = SM.effect_conditions(lambda e: e[0] == 'write')
+    for e in wr:
+        if e[1] != RU:
+            ctx.report(A1, f, f['body'], 'RnAndModify store', 'post-modification stores to something other than regs.r[unit]: %s' % e[1][:120])
+    vals = {e[3] for e in wr if e[1] == RU}
+    if not vals <= {'0', STEP} or STEP not in vals:
+        ctx.report(A1, f, f['body'], 'RnAndModify step', 'the new value is not StepAddress(unit, regs.r[unit], step, dmod): %s' % sorted(vals))
     g = ctx.fn(I + 'RnAddressAndModify(unsigned int,StepValue,bool)')
     ctx.inst(A1)
     if render_stmt(g['body'], g) != '{(return (call Teakra::Interpreter::RnAddress on this $0 (call Teakra::Interpreter::RnAndModify on this $0 $1 $2)))}':
@@ -146,9 +144,14 @@ def run(ctx):
     ctx.require(n_br == 4, 'BitReverse call sites: %d' % n_br)
     f = ctx.fn(I + 'RnAddress(unsigned int,unsigned int)')
     ctx.inst(A2)
-    want = '{(var ret $1) (if (&& (! ([] %sm) $0)) ([] %sbr) $0)) {(= l:ret (call BitReverse l:ret))}) (return l:ret)}' % (REGS, REGS)
-    if render_stmt(f['body'], f, inline_locals=False) != want:
-        ctx.report(A2, f, f['body'], 'RnAddress', 'the effective address is not value, bit-reversed iff br[unit] && !m[unit]: ' + render_stmt(f['body'], f, inline_locals=False)[:300])
+    SM = summ.summary(ctx, f)
+    BR, MM = boolform.A('([] %sbr) $0)' % REGS), boolform.A('([] %sm) $0)' % REGS)
+    REV = boolform.all_of(BR, boolform.neg(MM))
+    rets = SM.returns()
+    if set(rets) != {'$1', '(call BitReverse $1)'} or boolform.equivalent(rets['(call BitReverse $1)'], REV) is not True \
+            or boolform.equivalent(rets['$1'], boolform.neg(REV)) is not True:
+        ctx.report(A2, f, f['body'], 'RnAddress', 'the effective address is not value, bit-reversed iff br[unit] && !m[unit]: %s'
+                   % {k: boolform.show(v)[:120] for k, v in rets.items()})
     if any(p[1] == 'r' for p, n, how in direct_writes(f['body'])):
         ctx.report(A2, f, f['body'], 'RnAddress store', 'RnAddress modifies an address register')
     for h in interp_functions(ctx):
@@ -184,22 +187,19 @@ def run(ctx):
         ctx.report(A3, f, f['body'], 'StepAddress linear', 'the non-modulo path is not address += s')
     # ---- A4
     f = ctx.fn(I + 'RnAndModify(unsigned int,StepValue,bool)')
-    r = Renderer(f, inline_locals=False)
-    z = [n for n in walk(f['body']) if n.get('k') == 'assign' and const_value(n.get('rhs')) == 0 and r.r(unwrap_casts(n['lhs'])) == '([] %sr) $0)' % REGS]
+    SM = summ.summary(ctx, f)
     ctx.inst(A4)
+    RU = '([] %sr) $0)' % REGS
+    z = [c for e, c in SM.effect_conditions(lambda e: e[0] == 'write' and e[1] == RU and e[3] == '0').items()]
     if len(z) != 1:
         ctx.report(A4, f, f['body'], 'end-pointer zeroing', 'expected exactly one zeroing store')
     else:
-        g = sorted((r.r(c), pol) for c, pol, s in guards_at(f['body'], z[0]))
-        want = sorted([('(|| (&& (== $0 3) %sepi)) (&& (== $0 7) %sepj)))' % (REGS, REGS), True)] +
-                      [('(!= $1 StepValue::%s)' % k, True) for k in ('Increase2Mode1', 'Decrease2Mode1', 'Increase2Mode2', 'Decrease2Mode2')])
-        alt = sorted([('(|| (&& %sepi) (== $0 3)) (&& %sepj) (== $0 7)))' % (REGS, REGS), True)] + want[1:]) if False else None
-        gg = [(c.replace('(== 3 $0)', '(== $0 3)').replace('(== 7 $0)', '(== $0 7)'), p) for c, p in g]
-        ok = len(gg) == 5 and all(x in gg for x in want[0:0]) and sum(1 for c, p in gg if c.startswith('(!= $1 StepValue::') and p) == 4 \
-            and {c for c, p in gg if c.startswith('(!= $1')} == {w[0] for w in want if w[0].startswith('(!= $1')} \
-            and any('epi)' in c and 'epj)' in c and '3' in c and '7' in c and p and c.startswith('(|| ') for c, p in gg)
-        if not ok:
-            ctx.report(A4, f, z[0], 'end-pointer guard', 'zeroing is guarded by %s' % gg)
+        def eq(a, b):
+            return boolform.A('(== %s %s)' % tuple(sorted([a, b])))
+        EP = boolform.any_of(boolform.all_of(eq('$0', '3'), boolform.A(REGS + 'epi)')), boolform.all_of(eq('$0', '7'), boolform.A(REGS + 'epj)')))
+        NOT2 = boolform.all_of(*[boolform.neg(eq('$1', 'StepValue::' + k)) for k in ('Increase2Mode1', 'Decrease2Mode1', 'Increase2Mode2', 'Decrease2Mode2')])
+        if boolform.equivalent(z[0], boolform.all_of(EP, NOT2)) is not True:
+            ctx.report(A4, f, f['body'], 'end-pointer guard', 'zeroing happens under %s' % boolform.show(z[0])[:300])
     # ---- A5 unit agreement
     n_calls = 0
     for h in interp_functions(ctx):
